@@ -116,6 +116,8 @@ def bitstr(b):
         return "%s[%d].%d" % (b[1], b[2], b[3])
     if b[0] == "!":
         return "~" + bitstr(b[1])
+    if b[0] == "x":
+        return "xor(%d terms)%s" % (len(b[1]), "^1" if b[2] else "")
     return str(b)
 
 
@@ -134,6 +136,30 @@ def const(v, width, signed=False):
     return BV([(v >> i) & 1 for i in range(width)], signed)
 
 
+def _lin(b):
+    """A non-constant bit as a GF(2) affine form (frozenset of symbols, constant), or None for top."""
+    if b in (0, 1):
+        return (frozenset(), b)
+    if b is None:
+        return None
+    if b[0] == "!":
+        x = _lin(b[1])
+        return None if x is None else (x[0], 1 - x[1])
+    if b[0] == "x":
+        return (b[1], b[2])
+    return (frozenset((b,)), 0)
+
+
+def _unlin(f):
+    syms, c = f
+    if not syms:
+        return c
+    if len(syms) == 1:
+        (s,) = syms
+        return s if c == 0 else ("!", s)
+    return ("x", syms, c)
+
+
 def bnot(b):
     if b in (0, 1):
         return 1 - b
@@ -141,6 +167,8 @@ def bnot(b):
         return None
     if b[0] == "!":
         return b[1]
+    if b[0] == "x":
+        return ("x", b[1], 1 - b[2])
     return ("!", b)
 
 
@@ -173,19 +201,21 @@ def bor(a, b):
 
 
 def bxor(a, b):
+    """Exclusive or stays exact: bits are affine forms over GF(2) (an XOR of named input bits and a constant)."""
     if a == 0:
         return b
     if b == 0:
         return a
+    if a is None or b is None:
+        return None
     if a == 1:
         return bnot(b)
     if b == 1:
         return bnot(a)
-    if a is not None and a == b:
-        return 0
-    if a is not None and b is not None and a == bnot(b):
-        return 1
-    return None
+    fa, fb = _lin(a), _lin(b)
+    if fa is None or fb is None:
+        return None
+    return _unlin((fa[0] ^ fb[0], fa[1] ^ fb[1]))
 
 
 class Infeasible(Exception):
@@ -230,6 +260,13 @@ class St:
         if b[0] == "!":
             x = self.norm(b[1])
             return bnot(x)
+        if b[0] == "x":
+            if not self.assume and not self.alias:
+                return b
+            acc = b[2]
+            for sym in b[1]:
+                acc = bxor(acc, self.norm(sym))
+            return acc
         seen = 0
         while b in self.alias and seen < 64:
             b = self.alias[b]
@@ -255,6 +292,8 @@ class St:
             return
         if b[0] == "!":
             return self.learn(b[1], 1 - want)
+        if b[0] == "x":
+            return          # an affine combination: not representable as a fact about one bit (sound to forget)
         self.assume[b] = want
         self._propagate()
 
